@@ -164,7 +164,10 @@ def run_pool(pid, cases, env, workdir, nworkers, default_timeout, startup=240.0,
         if c.get("fresh"):
             q.put([c])
         else:
-            chunks.setdefault(c["gen"], []).append(c)
+            # (one chunk = one generator and one interpreter mode, so that a worker is not
+            # restarted between cases)
+            chunks.setdefault((c["gen"], bool(c.get("pyopt")), bool(c.get("nojit"))),
+                              []).append(c)
     nslots = max(1, nworkers)
     allchunks = []
     for g, lst in chunks.items():
